@@ -62,7 +62,7 @@ PLAN = {
                  "JSON parsers, chunk streaming and the remaining Rope methods are not decided.",
         "note": "Partial: only the decoder/encoder half of the property. Trusted: Verus/Z3/vstd, extraction rules, assume_specifications listed in evidence.",
         "trusted_base": TB_VERUS + TB_CODEC_ENC + TB_ROPE,
-        "assumptions": ["mappings string shorter than u32::MAX - 1 bytes", "encoder input sorted by generated line (any u32 values)", "ReplaceSource: positions on char boundaries or beyond the end, inner text < 4 GiB; Rope methods per their assumed contracts"],
+        "assumptions": ["mappings string shorter than u32::MAX - 1 bytes", "encoder input sorted by generated line (any u32 values)", "ReplaceSource: positions on char boundaries or beyond the end, inner text < 4 GiB; in this view the total length of the rope built by ReplaceSource::rope is assumed to fit usize (C05's view proves it from the spliced text fitting usize)"],
         "not_covered": ["SourceMap::from_json/from_slice/from_reader (simd-json)", "every stream_chunks implementation", "Rope::from_iter / lines / char_indices / starts_with / eq / to_string", "ReplaceSource::stream_chunks / map"],
         "design_ref": "DESIGN.md §4/C17",
     },
